@@ -156,6 +156,13 @@ def _run_one(s):
             return {"error": list(r)}
         tr["batches2"] = r[1]
         tr["len2"] = len(loader)
+        if s.get("bb3"):
+            loader.dataset.branch_batch_size = s["bb3"]
+            r = watched(it)
+            if r[0] != "ok":
+                return {"error": list(r)}
+            tr["batches3"] = r[1]
+            tr["len3"] = len(loader)
     return tr
 
 
